@@ -95,8 +95,21 @@ def reader_streams(quick, seed):
     def bounds(recs):
         return [a for (_, a, b, _) in F.layout(recs)] + [len(F.assemble(recs))]
 
+    def concat_of(recs):
+        """offsets at which a concatenable format (lzip members, xz streams) is complete -> content length so far"""
+        out, off, plen = {}, 0, 0
+        for r in recs:
+            off += len(r.raw)
+            if r.kind in ("LBODY", "DATA"):
+                plen += r.info.get("usize", 0)
+            if r.kind in ("LTRL", "FOOTER", "SPAD"):
+                out[off] = plen
+        return out
+
     def add(name, dec, recs, expect, exact=True, **kw):
         data = F.assemble(recs) if isinstance(recs, list) else recs
+        if isinstance(recs, list):
+            kw.setdefault("concat", concat_of(recs))
         S.append(dict(name=name, dec=dec, data=data, expect=expect, bounds=bounds(recs) if isinstance(recs, list) else [0, len(data)],
                       exact=exact, **kw))
 
@@ -238,8 +251,15 @@ def judge_reader(s, job, r, need, declared):
     if cut and kinds:
         fault = "trunc+" + kinds[0]
     base = {"side": "reader", "reader": name, "dec": s["dec"]["kind"], "fault": fault}
+    base["fault_class"] = "cut" if cut else "err" if "err" in kinds else "intr" if ("intr" in kinds or sc.get("intr_every")) else \
+        "short" if (kinds or sc.get("chunk")) else "none"
     o = r["o"]
     benign = not cut and all(k in ("short", "intr") for k in kinds)
+    if cut and trunc in s.get("concat", {}) and trunc > 0:
+        # the cut falls on a member / stream boundary of a concatenable format: what is left is a complete, shorter file
+        plen = s["concat"][trunc]
+        if o == "ok" and r.get("pre") and r["n"] == plen and r.get("err_delivered") is None:
+            return v
     if o in ("panic", "abort", "spin"):
         v.append((f"{name}: {o} under I/O fault script {sc}: {r.get('m', '')}", dict(base, outcome=o)))
         return v
@@ -255,8 +275,10 @@ def judge_reader(s, job, r, need, declared):
     if unframed_cut and o == "ok" and r.get("err_delivered") is None:
         return v        # a prefix of an unframed filter stream is a complete stream
     if o == "ok" and r.get("eq") is False:
-        v.append((f"{name}: success with different bytes ({r['n']} bytes, first difference at {r.get('first_diff')}, expected "
-                  f"{declared}) under {sc}", dict(base, outcome="wrong_success")))
+        missing = r.get("pre") and r["n"] < declared
+        v.append((f"{name}: success with {'missing' if missing else 'different'} bytes ({r['n']} bytes, first difference at "
+                  f"{r.get('first_diff')}, expected {declared}) under {sc}",
+                  dict(base, outcome="false_success" if (missing and cut) else "wrong_success")))
         return v
     if cut and o == "ok":
         v.append((f"{name}: source cut at {trunc} of {need} needed bytes, reader reports success", dict(base, outcome="false_success")))
@@ -325,7 +347,7 @@ def reader_events(s, job, r, need, declared):
 def writer_events(w, job, r):
     sc = job["script"]
     kinds = [f["kind"] for f in sc.get("faults", [])]
-    benign = all(k in ("short", "intr") for k in kinds)
+    benign = all(k in ("short", "intr") for k in kinds) and not sc.get("capacity")
     errk = next((f.get("err", "WriteZero") for f in sc.get("faults", []) if f["kind"] in ("err", "zero")), "none")
     ev = [{"ev": "Reset", "half": "w", "len": 0, "need": 0, "declared": r["clean_len"], "benign": benign, "exact": False, "errk": errk}]
     for e in r["io"]:
@@ -568,6 +590,9 @@ def run(tier, replay=None):
         s = meta[i][0]
         if len(r.get("io", [])) >= 19_000:
             continue
+        tr = jobs[i]["script"].get("trunc")
+        if tr is not None and tr < s["need"] and (s.get("unframed") or tr in s.get("concat", {})):
+            continue        # a shorter complete stream, not a truncated one
         ev_runs.append((i, reader_events(s, jobs[i], r, s["need"], s["declared"])))
     wpick = collections.defaultdict(list)
     for i, (j, (w, src), r) in enumerate(zip(wjobs, wmeta, wresults)):
